@@ -58,6 +58,30 @@ CHECKS = {
         text="Exhaustive within the bound (N=3 quick / N=4 thorough stores; corruption at every row of the short chains and at the batch-boundary rows of the long one; checkpoint at the tip and mid-chain). Gzip-level corruption and Postgres are not covered. A duplicated row at/above the checkpoint yields a consistent longer chain and is not required to be refused.",
         design="§3 C17",
     ),
+    "C09": dict(
+        engine="apiwalk",
+        technique="complete product enumeration on the production gin engine: every route of Engine.Routes() (read at run time) x 10 credential classes x use_auth x debug_profiling x metrics; rejected requests are observed through a statement-recording SQL driver (only the token lookup may run) and table digests; routes outside /api/v1 are matched against the allowed set",
+        text="The space is finite and enumerated completely in both tiers (17 API routes x 10 classes x 8 configurations today; new routes are picked up from the routing table). Tokens in the classes come from a real create/revoke history on the SQL token repository.",
+        design="§3 C09",
+    ),
+    "C10": dict(
+        engine="apiwalk",
+        technique="exhaustive enumeration of operation sequences {create, revoke(each issued|unknown|admin|already revoked), restart} up to depth 5 (quick) / 7 (thorough) with <=3 issued tokens on the SQL token repository; after every step every known token, an unknown one and the admin token are probed on two HTTP routes and on the websocket connect handshake (real centrifuge node, real OnConnecting handler, in-memory transport), oracle = set model",
+        text="Exhaustive within the bound. Distinctness of generated tokens is only checked on the tokens observed. The websocket probe enters at the centrifuge connect command (the real handler), not at the HTTP upgrade.",
+        design="§3 C10",
+    ),
+    "C12": dict(
+        engine="apiwalk",
+        technique="breadth-first search over {register(bearer|custom|none), delete, notify with every per-hook outcome in {200,500,transport error,unreadable body}, restart} on two URLs for max_tries 1..3, state = webhooks table + counter model, successor = replay on a fresh SQLite store; call log of a scripted WebhookTargetClient and GET /webhook compared with the model after every step; every outcome sequence of length <=3 additionally through the production HTTP client against a loopback server",
+        text="Exhaustive to depth 6 (quick) / 9 (thorough); the evidence says per max_tries whether the state set closed below the depth bound. Events are delivered one at a time, as the statement says.",
+        design="§3 C12",
+    ),
+    "C16": dict(
+        engine="apiwalk",
+        technique="complete product enumeration per route of path/query/body alphabets (8 hash forms incl. stale/orphan/genesis/unknown/malformed/10 kB, 11 integer forms, 26 body forms incl. truncated, non-JSON, wrong content type, 5000-element lists) on three store shapes x {auth off, auth on}; oracle: status < 500, exactly one JSON document, 4xx = object with code and message, headers table digest unchanged, engine still answers",
+        text="The grammar is finite and enumerated completely (2790 requests per run). Requests that match no registered route are answered by the framework (plain 404 / redirect) and are counted but not judged. Byte-level HTTP malformation is net/http's.",
+        design="§3 C16",
+    ),
 }
 
 NOT_YET = "check not built yet in this session (work in progress; see DESIGN.md §7 for the order of work)"
@@ -113,6 +137,8 @@ NA = {}
 ENGINES = [
     {"name": "crashwalk", "path": "harness/crashwalk", "serves_properties": ["C05", "C17"],
      "kind_free_text": "crash-point / storage-fault enumeration at the repository write boundary with restart (database.Init) and redelivery; import/export corruption matrix"},
+    {"name": "apiwalk", "path": "harness/apiwalk", "serves_properties": ["C09", "C10", "C12", "C16"],
+     "kind_free_text": "BFS over operation sequences and complete request products on the production gin engine / websocket connect handler over SQL-backed services"},
     {"name": "storewalk", "path": "harness/storewalk", "serves_properties": ["C01", "C02", "C03", "C04", "C08", "C13"],
      "kind_free_text": "explicit-state DFS over reachable header stores; successor = file copy of the parent's SQLite store + one real Chains.Add"},
 ]
